@@ -872,6 +872,13 @@ def fixed_cases(table_names=()):
     add("order", [("ci", ord("a")), ("str", [ord("A"), ord("b")])])
     add("order", [("cistr", [ord("a"), ord("b")]), ("char", ord("a")), ("char", ord("A"))])
     add("order", [("char", 13), ("str", [13, 10]), ("char", 10)])
+    # a multi-character ^ literal in the same squashed choice as ranges, singles and classes: its case-insensitivity must
+    # not spill over to them (scoped flag), whatever the order
+    add("ci-scope", [("cistr", [ord("o"), ord("n")]), ("range", ord("x"), ord("z")), ("char", ord("_"))])
+    add("ci-scope", [("range", ord("x"), ord("z")), ("cistr", [ord("o"), ord("n")]), ("char", ord("q"))])
+    add("ci-scope", [("cistr", [ord("o"), ord("f"), ord("f")]), ("builtin", "ASCII_DIGIT"), ("range", ord("a"), ord("f"))])
+    add("ci-scope", [("cistr", [ord("1"), ord("k")]), ("char", ord("s")), ("builtin", "ASCII_ALPHA_LOWER")])
+    add("ci-scope", [("str", [ord("o"), ord("n")]), ("cistr", [ord("u"), ord("p")]), ("range", 0x3b1, 0x3c9), ("char", 0xb5)])
     # WHITESPACE choices fused into SKIP
     add("skip", [("char", 32), ("char", 9)], "skip")
     add("skip", [("char", 32), ("char", 9), ("char", 10), ("char", 13)], "skip")
